@@ -2,6 +2,7 @@
 package c11
 
 import (
+	"sync/atomic"
 	"context"
 	"fmt"
 	"os"
@@ -227,6 +228,7 @@ func unreachableOwner(rec *mon.Recorder, c int) {
 
 // applied-notification registry used by the forced "apply before wait" schedule
 type appliedReg struct {
+	linger  int32 // when set, a held caller stays at the pause point 80 ms longer (its own deadline passes)
 	mu      sync.Mutex
 	applied map[uuid.UUID]bool
 	waiters map[uuid.UUID]chan struct{}
@@ -303,6 +305,9 @@ func scenario(rec *mon.Recorder, c int) {
 					rec.Count("callers_held_until_applied", 1)
 					held++
 					time.Sleep(200 * time.Microsecond)
+					if atomic.LoadInt32(&reg.linger) == 1 {
+						time.Sleep(80 * time.Millisecond)
+					}
 				}
 			}
 		}
@@ -601,6 +606,48 @@ func scenario(rec *mon.Recorder, c int) {
 		reg.force = true
 		reg.mu.Unlock()
 		runCallers("apply-before-wait", 3, 1)
+		reg.mu.Lock()
+		reg.force = false
+		reg.mu.Unlock()
+	}
+	if repl == 1 && !violated {
+		// A caller whose own deadline passes while its outcome is already waiting for it: it may leave with either
+		// (the write was applied, the caller may be told so or not). Whatever it leaves behind must not reach the
+		// next caller: a duplicate insert right afterwards is refused, a remove of an absent id is refused.
+		reg.mu.Lock()
+		reg.force = true
+		reg.mu.Unlock()
+		d := cl.Nodes[0].Dataset(dsId)
+		for r := 0; r < 24 && !violated; r++ {
+			x := hx.Id(c*100000 + 90000 + r)
+			atomic.StoreInt32(&reg.linger, 1)
+			actx, acancel := context.WithTimeout(ctx, 30*time.Millisecond)
+			aerr := d.Insert(actx, x, []float32{float32(r), 7, 8}, nil)
+			acancel()
+			atomic.StoreInt32(&reg.linger, 0)
+			if aerr != nil {
+				rec.Count("callers_that_left_on_their_deadline_with_the_outcome_waiting", 1)
+			}
+			// the insert above was applied (the caller was held until it was): the same id again is a duplicate
+			bctx, bcancel := context.WithTimeout(ctx, 9*time.Second)
+			var berr error
+			what := "insert of the id the expired caller had just inserted"
+			if r%2 == 0 {
+				berr = d.Insert(bctx, x, []float32{float32(r), 9, 9}, nil)
+				if berr == nil || !stringsContain(berr.Error(), index.ItemAlreadyExistsError.Error()) {
+					fail("caller:wrong-outcome:after-a-caller-left-on-its-deadline", fmt.Sprintf("%s (%s) returned %v, want %q (the earlier caller's insert returned %v)", what, x, berr, index.ItemAlreadyExistsError, aerr))
+				}
+			} else {
+				what = "remove of an absent id"
+				y := hx.Id(c*100000 + 95000 + r)
+				berr = d.Remove(bctx, y)
+				if berr == nil || !stringsContain(berr.Error(), index.ItemNotFoundError.Error()) {
+					fail("caller:wrong-outcome:after-a-caller-left-on-its-deadline", fmt.Sprintf("%s (%s) returned %v, want %q (the earlier caller's insert returned %v)", what, y, berr, index.ItemNotFoundError, aerr))
+				}
+			}
+			bcancel()
+			rec.Count("caller_outcomes_checked", 1)
+		}
 		reg.mu.Lock()
 		reg.force = false
 		reg.mu.Unlock()
